@@ -7,6 +7,10 @@ R10.2 nothing that can reject the request (explicit request-dependent raise, par
       first mutation of the target in those functions.
 R10.3 every entry into the raw reparse runs under `with ..._modifying(..., raw=True)`; the only ways new nodes are attached are
       `X._set_ast(copy.a, ...)` on an existing node and `self._lines = ...` on the root (the root object keeps its identity).
+R10.4 a line list a reparse function writes into before its parser call is never the live line list of a tree.
+R10.5 header-only reparse: the children the reparse did not see (everything after the block header) are carried over from the old node
+      completely: the set of fields grafted onto the reparsed copy covers every block-list field of the grammar (element type stmt /
+      excepthandler / match_case in astutil.FIELDS). A missing field would leave the wrapper's placeholder block in the tree.
 Not decided: success <=> the whole new source is valid; equality with a from-scratch parse (incremental strategy is value level;
 the design-time disagreements named in the property are not claimed as held).
 """
@@ -153,6 +157,7 @@ def run(ctx):
         _effects.USER_EXC.update(saved_exc)
     check_scratch_lines(ctx, parsers)
     check_entries(ctx)
+    check_header_graft(ctx)
 
 
 def check_scratch_lines(ctx, parsers):
@@ -334,3 +339,83 @@ def check_entries(ctx):
             for c in sets:
                 ctx.check('R10.3', norm(c.func.value) in ('self', 'stmtlike'), fi.module, fi.qualname, c,
                           '_set_ast must be applied to the existing node being reparsed', c.lineno)
+
+
+BLOCK_ELEMENT_TYPES = ('stmt*', 'excepthandler*', 'match_case*')
+
+
+def check_header_graft(ctx):
+    """R10.5: `_reparse_raw_stmtlike` reparses only the header of a block statement inside a wrapper whose blocks are placeholders (`pass`,
+    `case _: pass`, `except: pass`) and then grafts the old blocks onto the copy.  The grafted field set is evaluated statically (whatever
+    constant or expression the loop iterates over) and compared with the block-list fields of the grammar table."""
+    from ..tables import fields
+    ctx.rule('R10.5', 'the header-only raw reparse grafts every block-list field of the grammar (stmt* / excepthandler* / match_case*) from the '
+                      'old node onto the reparsed copy', 5)
+    F = fields(ctx)
+    required = {}
+    for cls, fs in F.items():
+        for f, ty in fs:
+            if ty in BLOCK_ELEMENT_TYPES:
+                required.setdefault(f, []).append(getattr(cls, 'name', str(cls)))
+    if len(required) < 5:
+        raise AnalysisError(f'astutil.FIELDS yields only {sorted(required)} as block-list fields (>= 5 expected)')
+    n_sites = 0
+    anchor = ctx.repo.find_funcs('fst_raw', '_reparse_raw_stmtlike')
+    if not anchor:
+        raise AnalysisError('fst_raw._reparse_raw_stmtlike not found (anchor vanished)')
+    # the graft may live in a worker split off the anchor function: every module-level function of its module is searched
+    home = ctx.repo.mod(anchor[0].module)
+    cands = [fi for q, fis in home.funcs.items() for fi in fis if not isinstance(fi.node, ast.Lambda)]
+    explicit_only = []
+    for fi in cands:
+        grafted, site, unknown, loop = set(), None, None, None
+        for x in walk_no_nested(fi.node):
+            if isinstance(x, ast.For) and isinstance(x.target, ast.Name):
+                v = x.target.id
+                sets = [c for y in x.body for c in ast.walk(y) if isinstance(c, ast.Call) and call_name(c) == 'setattr' and len(c.args) == 3 and
+                        isinstance(c.args[1], ast.Name) and c.args[1].id == v]
+                gets = [c for y in x.body for c in ast.walk(y) if isinstance(c, ast.Call) and call_name(c) == 'getattr' and len(c.args) >= 2 and
+                        isinstance(c.args[1], ast.Name) and c.args[1].id == v]
+                if not sets or not gets:
+                    continue
+                loop = loop or x
+                try:
+                    val = ctx.ev.eval(x.iter, dict(ctx.ev.env(fi.module)), fi.module)
+                except Exception:
+                    val = None
+                if isinstance(val, (set, frozenset, tuple, list)) and all(isinstance(s, str) for s in val):
+                    grafted |= set(val)
+                else:
+                    unknown = x
+            elif isinstance(x, ast.Assign):
+                for t in x.targets:
+                    if isinstance(t, ast.Attribute) and t.attr in required and isinstance(x.value, ast.Attribute) and x.value.attr == t.attr and \
+                            norm(t.value) != norm(x.value.value):
+                        grafted.add(t.attr)
+                        site = site or x
+        if loop is None:
+            # explicit stores only (`copya.body = stmtlikea.body` on the path restricted to match_case / ExceptHandler, whose only block is
+            # `body`): complete for the classes that path serves; judged only when no general graft loop exists anywhere
+            if site is not None:
+                explicit_only.append((fi, site, grafted))
+            continue
+        if unknown is not None:
+            raise AnalysisError(f'{fi.key}: the field set of the graft loop at line {unknown.lineno} (`{norm(unknown.iter, 60)}`) did not evaluate '
+                                f'statically to a collection of names')
+        n_sites += 1
+        for f in sorted(required):
+            ctx.check('R10.5', f in grafted, fi.module, fi.qualname, f'graft of block field {f!r}',
+                      f'after a header-only reparse the old `{f}` ({", ".join(sorted(required[f])[:4])}) is not carried over to the reparsed copy: '
+                      f'the tree keeps the placeholder block of the wrapper while the source keeps the real one (tree differs from a full parse)',
+                      loop.lineno, sample={'function': fi.key, 'field': f, 'grafted': sorted(grafted)})
+    if not n_sites and explicit_only:
+        union = set().union(*(g for _, _, g in explicit_only))
+        fi, site, _ = explicit_only[0]
+        n_sites += 1
+        for f in sorted(required):
+            ctx.check('R10.5', f in union, fi.module, fi.qualname, f'graft of block field {f!r}',
+                      f'after a header-only reparse the old `{f}` ({", ".join(sorted(required[f])[:4])}) is not carried over to the reparsed copy by '
+                      f'any of the explicit stores in {sorted(x.qualname for x, _, _ in explicit_only)}', site.lineno,
+                      sample={'function': fi.key, 'field': f, 'grafted': sorted(union)})
+    if not n_sites:
+        raise AnalysisError(f'{home.name if hasattr(home, "name") else "fst_raw"}: no graft of the old blocks onto a reparsed copy found (anchor vanished)')
